@@ -22,6 +22,9 @@ CONCSRV = [("concsrv-counter", {"quick": ["-n", "12"], "thorough": ["-n", "600"]
            ("concsrv-map", {"quick": ["-n", "12"], "thorough": ["-n", "600"], "search": ["-n", "100"]}),
            ("concsrv-list", {"quick": ["-n", "12"], "thorough": ["-n", "600"], "search": ["-n", "100"]})]
 DOC = [("doc", {"quick": ["-n", "150"], "thorough": ["-n", "6000"], "search": ["-n", "1500"]})]
+REALTIME = [("realtime-counter", {"quick": ["-n", "8"], "thorough": ["-n", "300"], "search": ["-n", "60"]}),
+            ("realtime-map", {"quick": ["-n", "8"], "thorough": ["-n", "300"], "search": ["-n", "60"]}),
+            ("realtime-list", {"quick": ["-n", "8"], "thorough": ["-n", "300"], "search": ["-n", "60"]})]
 PROPS = {
     "C14": {"slices": [("codec", {"quick": ["-n", "1500"], "thorough": ["-n", "60000"], "search": ["-n", "8000"]})],
             "trusted": ["encoding/json, google.golang.org/protobuf and mongo-driver/bson byte formats: exercised (every case goes through all three), not modelled",
@@ -45,7 +48,8 @@ PROPS = {
     "C13": {"slices": WIRE, "trusted": SRV_TRUST, "assumptions": ["handlers of one datatype run one at a time"]},
     "C16": {"slices": WIRE, "trusted": SRV_TRUST, "assumptions": ["liveness of the Go code (no hang, no crash) is tested, not proved"]},
     "C17": {"slices": WIRE, "trusted": SRV_TRUST, "assumptions": ["ResetCollection is not modelled yet"]},
-    "C18": {"slices": WIRE, "trusted": SRV_TRUST, "assumptions": ["realtime clients are not driven yet; publishes are recorded at the broker"]},
+    "C18": {"slices": WIRE + REALTIME, "trusted": SRV_TRUST + ["realtime slices: real gRPC on the loopback interface, goroutine scheduling and timing of the real client (convergence is awaited up to 5 s)"],
+            "assumptions": ["the client's notification filter (own CUID, DUID, NeedPull) is exercised end to end by the realtime slices and judged by convergence, not modelled"]},
     "C19": {"slices": DOC + [WIRE[3]], "trusted": ["github.com/wI2L/jsondiff (the edit script generator) is exercised, not modelled"],
             "assumptions": ["PARTIAL: 'the result equals the target' and convergence of other replicas are decided by replay + oracle, not by a theorem (see Properties/C19.v)", "the REST endpoint PatchDocument is driven by the wire-doc slice and judged by Go oracles (answer = target, stored log rebuilds to the target, log invariants, convergence of clients); its handler path with the administrative volatile client is not modelled: the model takes the stored operations over as observed"]},
     "C01": {"slices": CRDT + DOC, "trusted": [], "assumptions": ["clocks below the half-range wrap", "delivery in log order, whole transaction units"]},
